@@ -1,7 +1,7 @@
 SPECIFICATION TraceSpec
 CONSTANTS
-  NE = 30000
-  MaxLen = 100000
+  NK = 16800
+  NV = 7
   BDepth = 100000
   Obs <- ObsTrace
 POSTCONDITION TraceAccepted
